@@ -69,6 +69,9 @@ func c06(r *core.Run) {
 	r.Rule("R6", "lookup is a pure read: no function reachable from Mux.GetHandler stores to a field or element of the Mux / trie node / registered handler, updates one of their maps, or appends to (re-slices and extends) a slice held in them; lookups run concurrently on the listener goroutine and on any goroutine calling With / Resource, so scratch state kept in the Mux would mix the tokens of two names", 1)
 
 	r.Rule("R7", "the mux path is matched as whole tokens: in Mux.GetHandler the remainder of the name after the path prefix is taken only on an edge where the byte following the prefix was compared equal to the token separator (or the lengths are equal); a bare prefix test would route 'testing.x' or 'users.1' to the service 'test' / 'user'", 1)
+	r.Rule("R9", "the matcher does not give up early: every `false` the recursive matcher returns is produced on the edge where the full-wildcard child was found absent - after the literal and the placeholder child were tried; a `return false` before that (for instance at a handler-less literal node that only exists as part of a longer pattern) hides the placeholder and wildcard patterns that match the name", 1)
+	r.Rule("R8", "Parallel means the empty group (shared with C01.F2): registration parses the group template from Handler.Group only on the !Parallel edge, so a Parallel handler is stored with the empty group whatever its Group option says (lookup then reports an empty group for it)", 1)
+	c01ParallelGroup(r, "R8")
 
 	root := p.FuncsOfPkg("")
 	ro := resolveMuxRoles(r)
@@ -76,6 +79,7 @@ func c06(r *core.Run) {
 		return
 	}
 	c06PureLookup(r, "R6")
+	c06NoEarlyFailure(r, "R9", ro)
 	c06PrefixBoundary(r)
 	c06GroupTags(r, root, ro)
 	mn := ro.matchNode
@@ -1003,5 +1007,73 @@ func c06PrefixBoundary(r *core.Run) {
 	}
 	if n == 0 {
 		r.OKTrivial("R7", core.FuncName(gh), "no-remainder-slicing", p.Pos(gh.Pos()), "the lookup entry takes no remainder of the name by position")
+	}
+}
+
+// c06NoEarlyFailure is C06.R9 (shared with C17.G6).
+func c06NoEarlyFailure(r *core.Run, rule string, ro *muxRoles) {
+	p := r.P
+	mn := ro.matchNode
+	if mn == nil {
+		r.Unres(rule, "matchNode", "not resolved")
+		return
+	}
+	wildAbsent := func(e edgeCond) bool {
+		ci := core.Cond(e.If.Cond)
+		if ci.Kind != "nilcmp" || !ci.HasFld || ci.Field != ro.nodeWild {
+			return false
+		}
+		truth := e.Succ == 0
+		if ci.Negate {
+			truth = !truth
+		}
+		return (ci.Op == token.EQL && truth) || (ci.Op == token.NEQ && !truth)
+	}
+	under := func(at ssa.Instruction, pred, to *ssa.BasicBlock) bool {
+		if pred != nil {
+			at = pred.Instrs[len(pred.Instrs)-1]
+			if iff, ok := at.(*ssa.If); ok {
+				for i, sc := range pred.Succs {
+					if sc == to && wildAbsent(edgeCond{iff, i}) {
+						return true
+					}
+				}
+			}
+		}
+		for _, e := range dominatingEdges(at) {
+			if wildAbsent(e) {
+				return true
+			}
+		}
+		return false
+	}
+	n := 0
+	for _, fn := range p.Helpers(mn) {
+		if fn != mn && !(fn.Signature.Results().Len() == 1 && core.TypeName(fn.Signature.Results().At(0).Type()) == "bool" && callsStatic(fn, func(c *ssa.Function) bool { return c == mn })) {
+			continue
+		}
+		for _, ret := range core.Returns(fn) {
+			if len(ret.Results) != 1 {
+				continue
+			}
+			var walk func(v ssa.Value, pred, to *ssa.BasicBlock, d int)
+			walk = func(v ssa.Value, pred, to *ssa.BasicBlock, d int) {
+				if phi, ok := v.(*ssa.Phi); ok && d < 5 {
+					for i, e := range phi.Edges {
+						walk(e, phi.Block().Preds[i], phi.Block(), d+1)
+					}
+					return
+				}
+				if !isConstBool(v, false) {
+					return
+				}
+				n++
+				r.Check(under(ret, pred, to), rule, core.FuncName(fn), "false-only-after-wildcard-child-absent", p.InstrPos(ret), "the matcher fails only after the full-wildcard child was found absent", "the matcher returns false before the placeholder / full-wildcard children were tried: a name whose last token equals a literal that only exists as part of a longer pattern is not routed to the placeholder or wildcard pattern that matches it")
+			}
+			walk(ret.Results[0], nil, nil, 0)
+		}
+	}
+	if n == 0 {
+		r.Bad(rule, core.FuncName(mn), "false-only-after-wildcard-child-absent", p.Pos(mn.Pos()), "the matcher has no failing return at all")
 	}
 }
